@@ -1,0 +1,21 @@
+//go:build verif
+
+package kernel
+
+// Verification hooks for property C35 (topology counter). Add-only, compiled only with the
+// `verif` build tag.
+
+import "github.com/MixinNetwork/mixin/storage"
+
+// VerifTopoNode builds the part of a Node that TopoWrite uses: the store and the topology
+// counter, initialised by the same getTopologyCounter that SetupNode calls.
+func VerifTopoNode(store storage.Store) *Node {
+	node := &Node{persistStore: store, done: make(chan struct{})}
+	node.TopoCounter = node.getTopologyCounter(store)
+	return node
+}
+
+// VerifStop ends the statistics goroutine started by getTopologyCounter.
+func (node *Node) VerifStop() {
+	close(node.done)
+}
